@@ -1,8 +1,8 @@
 (* C10 -- consist power split conserves demand and honours each unit's capability.
    Pinned statements only; proofs in proofs/ConsistP.v and proofs/C10P.v. *)
 From Coq Require Import Reals List Bool.
-From AltModel Require Import Num Interp Powertrain Loco Consist Resist Braking TrainStep TrainFull.
-From AltProofs Require Import NumR ConsistP C10P TrainFullP WholeSplitP.
+From AltModel Require Import Num Interp Powertrain Loco Consist Resist Braking TrainStep TrainFull SpeedPoints PathGeom TrainEnergy WholeSim.
+From AltProofs Require Import NumR ConsistP C10P TrainFullP WholeSplitP SpeedPointsP PathGeomP TimedTraceP.
 Import ListNotations.
 Open Scope R_scope.
 
@@ -70,3 +70,12 @@ Theorem C10_whole_set_speed_run : forall (e : Env (F:=R)) times speeds fmax n x 
   forall k y y', (k < n)%nat -> ss_full_run k e times speeds fmax x = Ok y -> ss_full_step e times speeds fmax y = Ok y' ->
     cinv (snd y) /\ (limits_nonneg (snd y') -> split_ok (cn_pdct (snd x)) (ss_pwr y') (snd y')).
 Proof. exact ss_full_run_split. Qed.
+
+(* ---- the simulation of a DISPATCHED train (SpeedLimitTrainSim::walk_timed_path, model WholeSim.sl_timed_walk, tied to
+   the real function end to end by check C11): it consists of whole steps and re-computations of the braking points
+   only (tw_trace, proofs/TimedTraceP.v), and at EVERY step the consist request is split lawfully ---- *)
+Theorem C10_dispatched_train : forall fuel_bp fuel_steps (net : list LinkR) (tp : TPR) tl rp fmax fb st cache (con : ConsistR) x',
+  sl_timed_walk fuel_bp fuel_steps net tp tl rp fmax fb st cache con = Ok x' -> cinv con ->
+  cinv (snd x') /\ cn_pdct (snd x') = cn_pdct con /\
+  tw_trace fmax (split_step (cn_pdct con)) ({| sl_st := st; sl_cache := cache; sl_fb := fb; sl_idx := 0 |}, con) x'.
+Proof. exact sl_timed_walk_split. Qed.
